@@ -34,19 +34,19 @@ type c16Op struct {
 }
 
 type c16Case struct {
-	Procs      int       `json:"gomaxprocs"`
-	Transport  string    `json:"transport"`
-	Clients    int       `json:"clients"`
-	Recovery   bool      `json:"recovery"`
-	YieldEvery int       `json:"yield_every"` // every n-th hook hit yields (0 = never)
-	Lifecycle  []c16Op   `json:"lifecycle"`   // operations performed from connection / disconnecting / disconnect / connect handlers
-	Programs   [][]c16Op `json:"programs"`    // one slice per goroutine
-	CloseServer bool     `json:"close_server"` // the last act of goroutine 0 is Server.Close
+	Procs       int       `json:"gomaxprocs"`
+	Transport   string    `json:"transport"`
+	Clients     int       `json:"clients"`
+	Recovery    bool      `json:"recovery"`
+	YieldEvery  int       `json:"yield_every"`  // every n-th hook hit yields (0 = never)
+	Lifecycle   []c16Op   `json:"lifecycle"`    // operations performed from connection / disconnecting / disconnect / connect handlers
+	Programs    [][]c16Op `json:"programs"`     // one slice per goroutine
+	CloseServer bool      `json:"close_server"` // the last act of goroutine 0 is Server.Close
 }
 
 const (
 	c16SSOps  = 22
-	c16CSOps  = 18
+	c16CSOps  = 20
 	c16NspOps = 16
 	c16MgrOps = 10
 )
@@ -81,16 +81,16 @@ var c16Rooms = []sio.Room{"r0", "r1", "r2"}
 var c16Events = []string{"x", "y"}
 
 type c16World struct {
-	c       c16Case
-	r       *rig
-	nsp     *sio.Namespace
-	mu      sync.Mutex
-	ss      map[int]sio.ServerSocket // latest server socket per client index
-	mgrs    []*sio.Manager
-	cs      []sio.ClientSocket
-	opsDone atomic.Int64
+	c        c16Case
+	r        *rig
+	nsp      *sio.Namespace
+	mu       sync.Mutex
+	ss       map[int]sio.ServerSocket // latest server socket per client index
+	mgrs     []*sio.Manager
+	cs       []sio.ClientSocket
+	opsDone  atomic.Int64
 	inFlight sync.Map // goroutine label -> description of the operation in progress
-	hooks   atomic.Int64
+	hooks    atomic.Int64
 }
 
 func (w *c16World) serverSocket(i int) sio.ServerSocket {
@@ -268,6 +268,19 @@ func (w *c16World) doCS(s sio.ClientSocket, code, arg int) {
 		o := s.Manager().Socket(fmt.Sprintf("/dyn%d", arg%3), nil)
 		o.OnceConnect(c16LC2)
 		o.Connect()
+	case 18:
+		// a burst of connection cycles (windows of a few hundred nanoseconds are hit by repetition, not by luck)
+		for i := 0; i < 6+arg%6; i++ {
+			s.Disconnect()
+			s.Connect()
+		}
+	case 19:
+		// a burst of cheap calls that take the socket's small mutexes
+		for i := 0; i < 40; i++ {
+			s.SetAuth(map[string]any{"k": arg + i})
+			_, _, _ = s.Auth(), s.Connected(), s.Active()
+			_ = s.ID()
+		}
 	}
 }
 
@@ -473,7 +486,8 @@ func evalC16(c c16Case) (f *Failure, nontrivial bool) {
 		},
 		stop: func(string) bool { r := rp.Load(); return r != nil && r.closing.Load() },
 	}, func() {
-		r := newRig(rigOpts{Recovery: c.Recovery, PingInterval: time.Second, PingTimeout: 5 * time.Second})
+		// (with recovery: the adapter's log cleaner runs every 2 ms instead of every minute, so that it takes part in the program at all)
+		r := newRig(rigOpts{Recovery: c.Recovery, CleanerPeriod: 2 * time.Millisecond, PingInterval: time.Second, PingTimeout: 5 * time.Second})
 		rp.Store(r)
 		w.r = r
 		w.nsp = r.Server.Of("/")
@@ -722,7 +736,7 @@ func raceLogSince(mark int64) string {
 // ---- generator -------------------------------------------------------------------------------------------------------
 
 // c16ManagerTheme: operations around one manager's connection life cycle and the sockets that follow it
-var c16ManagerTheme = []c16Op{{Side: "cs", Code: 6}, {Side: "cs", Code: 7}, {Side: "cs", Code: 15}, {Side: "cs", Code: 16}, {Side: "cs", Code: 17}, {Side: "cs", Code: 16}, {Side: "cs", Code: 17},
+var c16ManagerTheme = []c16Op{{Side: "cs", Code: 18}, {Side: "cs", Code: 19}, {Side: "cs", Code: 19}, {Side: "cs", Code: 12}, {Side: "cs", Code: 6}, {Side: "cs", Code: 7}, {Side: "cs", Code: 15}, {Side: "cs", Code: 16}, {Side: "cs", Code: 17}, {Side: "cs", Code: 16}, {Side: "cs", Code: 17},
 	{Side: "mgr", Code: 0}, {Side: "mgr", Code: 1}, {Side: "mgr", Code: 8}, {Side: "mgr", Code: 6}, {Side: "cs", Code: 0}, {Side: "ss", Code: 19}, {Side: "nsp", Code: 13}}
 
 func genC16Op(t *rapid.T, clients int, allowHeavy bool) c16Op {
@@ -746,6 +760,9 @@ func genC16Op(t *rapid.T, clients int, allowHeavy bool) c16Op {
 	}
 	if !allowHeavy {
 		// disconnecting operations only in a minority of programs: a world in which everything is closed exercises little
+		if side == "cs" && op.Code == 18 {
+			op.Code = 19
+		}
 		if (side == "ss" && op.Code == 19) || (side == "cs" && op.Code == 7) || (side == "nsp" && op.Code == 13) || (side == "mgr" && op.Code == 1) {
 			op.Arg = op.Arg | 1
 			if op.Arg%3 == 0 {
@@ -777,7 +794,7 @@ func genC16Case(t *rapid.T) c16Case {
 		for i := 0; i < 5; i++ {
 			op := genC16Op(t, c.Clients, false)
 			// lifecycle handlers do not close things (a disconnect handler that reconnects and a connect handler that disconnects loop for ever by design)
-			if op.Side == "mgr" || (op.Side == "cs" && (op.Code == 6 || op.Code == 7 || op.Code == 15)) || (op.Side == "ss" && op.Code == 19) || (op.Side == "nsp" && op.Code == 13) {
+			if op.Side == "mgr" || (op.Side == "cs" && (op.Code == 6 || op.Code == 7 || op.Code == 15 || op.Code == 18)) || (op.Side == "ss" && op.Code == 19) || (op.Side == "nsp" && op.Code == 13) {
 				op = c16Op{Side: "nsp", Code: 2}
 			}
 			op.Via = "direct"
@@ -806,7 +823,7 @@ func TestC16_Programs(t *testing.T) {
 	setT(t)
 	realClock = true
 	ev := NewEv(t, "C16", c16Check, "rapid-generated concurrent programs on a real server + 1..3 real clients over memnet on the real clock, built with -race: 2..16 goroutines x 5..40 operations over "+
-		"ServerSocket (22 op kinds), ClientSocket (18), Namespace/Server/Adapter (16), Manager (10, including Close / Disconnect / Connect / Open issued from inside OnceOpen and OnceClose handlers): emits with/without ack/timeout/volatile/binary, join/leave/rooms, broadcasts through sockets and namespaces, "+
+		"ServerSocket (22 op kinds), ClientSocket (20, including bursts of connection cycles and of SetAuth/Auth/Connected calls), Namespace/Server/Adapter (16), Manager (10, including Close / Disconnect / Connect / Open issued from inside OnceOpen and OnceClose handlers): with connection state recovery in a quarter of the programs (log cleaner every 2 ms); emits with/without ack/timeout/volatile/binary, join/leave/rooms, broadcasts through sockets and namespaces, "+
 		"SocketsJoin/Leave/DisconnectSockets/FetchSockets, On/Once/Off of events and lifecycle handlers, Use, SetAuth, Connect/Disconnect/Open/Close, Server.Close; a third of the operations are performed from inside "+
 		"an event handler or an ack callback of the addressed side, five more from connection/disconnecting/disconnect/connect handlers; GOMAXPROCS in {1,2,4,16}; yields at the hook sites; a sixth of the programs concentrate on one manager's connection life cycle (Open/Close/Connect/Disconnect of several sockets "+
 		"of one manager); "+
